@@ -281,8 +281,48 @@ class Flags(object):
 
 
 # --------------------------------------------------------------------------
+class DTMap(object):
+    """odl.util.utility.TYPE_MAP_R2C / TYPE_MAP_C2R: real <-> complex partner
+    dtypes of the floating-point types (C2R also maps real types to
+    themselves)."""
+
+    def __init__(self, name):
+        self.name = name
+
+    def lookup(self, dt):
+        d = as_dt(dt).d
+        if d.shape or d.kind not in 'fc':
+            return None
+        single = d in (_np.dtype('float32'), _np.dtype('complex64'))
+        if d.kind == 'c' and self.name == 'TYPE_MAP_R2C':
+            return None
+        if self.name == 'TYPE_MAP_R2C':
+            return DT('complex64' if single else 'complex128')
+        return DT('float32' if single else 'float64')
+
+
 class NAHooks(Hooks):
     """np.* primitives and ndarray attributes/methods on NA values."""
+
+    def on_name(self, interp, name):
+        if name in ('TYPE_MAP_R2C', 'TYPE_MAP_C2R'):
+            return DTMap(name)
+        return Hooks.on_name(self, interp, name)
+
+    def on_call(self, interp, f, args, kwargs, node):
+        # odl.util.utility.complex_dtype / real_dtype look the partner type
+        # up in tables built at import time
+        nm = getattr(f, 'name', None)
+        if isinstance(f, Func) and nm in ('complex_dtype', 'real_dtype') \
+                and args and isinstance(args[0], DT) and not args[0].d.shape:
+            d = args[0].d
+            single = d in (_np.dtype('float32'), _np.dtype('complex64'))
+            if d.kind not in 'fc':
+                return NotImplemented
+            if nm == 'complex_dtype':
+                return DT('complex64' if single else 'complex128')
+            return DT('float32' if single else 'float64')
+        return NotImplemented
 
     # ---- element arithmetic helpers ----------------------------------------
     def elementwise(self, I, f, *ops, **kw):
@@ -968,6 +1008,13 @@ class NAHooks(Hooks):
             return Builtin('np.linalg.norm',
                            lambda v, ord=None, **k: self.linalg_norm(
                                I, na_of(v), ord, **k))
+        if isinstance(obj, DTMap):
+            if name == 'get':
+                def get(k, default=None):
+                    r = obj.lookup(k)
+                    return default if r is None else r
+                return Builtin('get', get)
+            return NotImplemented
         if isinstance(obj, ModuleV) and obj.name == 'np.fft' and name in (
                 'fftn', 'ifftn', 'rfftn', 'irfftn', 'fft', 'ifft', 'rfft',
                 'irfft'):
@@ -1292,6 +1339,11 @@ class NAHooks(Hooks):
         return NotImplemented
 
     def on_subscript(self, interp, obj, idx):
+        if isinstance(obj, DTMap):
+            r = obj.lookup(idx)
+            if r is None:
+                raise PyRaise('KeyError')
+            return r
         if isinstance(obj, NA):
             try:
                 res = obj.a[conv_index(idx)]
